@@ -192,6 +192,11 @@ pub trait Pv: Fc {
     /// Canonical rendering of the preprocessed commitment and its instance metadata.
     fn commitment_string(setup: &Setup<Self::SC>) -> String;
 
+    fn proof_to_json(proof: &BatchStarkProof<Self::SC>) -> serde_json::Value;
+    fn proof_from_json(v: serde_json::Value) -> Result<BatchStarkProof<Self::SC>, String>;
+    fn proof_to_postcard(proof: &BatchStarkProof<Self::SC>) -> Vec<u8>;
+    fn proof_from_postcard(b: &[u8]) -> Result<BatchStarkProof<Self::SC>, String>;
+
     /// setup + prove + verify
     fn prove_verify(
         circuit: &Circuit<Self::EF>,
@@ -371,6 +376,27 @@ macro_rules! impl_pv {
                             .collect::<Vec<_>>(),
                         g.matrix_to_instance
                     ),
+                }
+            }
+
+            fn proof_to_json(proof: &BatchStarkProof<Self::SC>) -> serde_json::Value {
+                serde_json::to_value(proof).expect("proof serialises to JSON")
+            }
+            fn proof_from_json(v: serde_json::Value) -> Result<BatchStarkProof<Self::SC>, String> {
+                match catch(|| serde_json::from_value::<BatchStarkProof<Self::SC>>(v)) {
+                    Ok(Ok(p)) => Ok(p),
+                    Ok(Err(e)) => Err(format!("{e}")),
+                    Err(p) => Err(format!("panic while deserialising: {p}")),
+                }
+            }
+            fn proof_to_postcard(proof: &BatchStarkProof<Self::SC>) -> Vec<u8> {
+                postcard::to_allocvec(proof).expect("proof serialises to postcard")
+            }
+            fn proof_from_postcard(b: &[u8]) -> Result<BatchStarkProof<Self::SC>, String> {
+                match catch(|| postcard::from_bytes::<BatchStarkProof<Self::SC>>(b)) {
+                    Ok(Ok(p)) => Ok(p),
+                    Ok(Err(e)) => Err(format!("{e}")),
+                    Err(p) => Err(format!("panic while deserialising: {p}")),
                 }
             }
 
